@@ -765,6 +765,40 @@ fn run_core_cap(c: &CoreCapCase) -> Verdict {
         v
     })
 }
+// byte decoder of CoreCase for the coverage-guided stage: same shapes and ranges as the strategy in `run`
+pub fn decode_core(data: &[u8]) -> Option<CoreCase> {
+    let mut u = arbitrary::Unstructured::new(data);
+    let r: arbitrary::Result<CoreCase> = (|| {
+        let peers = u.int_in_range(1u8..=6)?;
+        let n = u.int_in_range(1usize..=120)?;
+        let mut steps = Vec::new();
+        for _ in 0..n {
+            if u.is_empty() {
+                break;
+            }
+            steps.push(match u.int_in_range(0u8..=18)? {
+                0..=4 => CoreStep::Retrieve,
+                5..=10 => CoreStep::Reply(u.arbitrary()?, u.int_in_range(0u8..=3)?),
+                11 | 12 => CoreStep::UnknownId(u.arbitrary()?),
+                13..=15 => CoreStep::Advance(match u.int_in_range(0u8..=2)? {
+                    0 => u.int_in_range(1u16..=999)?,
+                    1 => u.int_in_range(4900u16..=5099)?,
+                    _ => u.int_in_range(5100u16..=8999)?,
+                }),
+                16 | 17 => CoreStep::Abort(u.arbitrary()?),
+                _ => CoreStep::SendFails(u.arbitrary()?, u.arbitrary()?),
+            });
+        }
+        if steps.is_empty() {
+            steps.push(CoreStep::Retrieve);
+        }
+        Ok(CoreCase { peers, steps })
+    })();
+    r.ok()
+}
+pub fn check_core(c: &CoreCase) -> Verdict {
+    run_core(c)
+}
 
 pub fn run(run: &Run) {
     run.assume("the hub is in manual mode: request frames are parked, every delivery to the node under test is an explicit script step with an explicit authenticated sender id; virtual time");
